@@ -570,6 +570,11 @@ def run_source(params, known):
     # is the primary block among what this integrity block covers?  (an ordinary change of its lifetime says so)
     probe = [e for e in field_edits(orig) if e[0] == 'primary-lifetime']
     primary_covered = bool(probe) and classify(orig, probe[0][1])[0] == 'must-fail'
+    target_nums = set(t for b in orig['blocks'] if b['type'] == B.T_BIB for t in B.dec_asb(b['data'])['targets'])
+    # ... and are the targets covered whole, their type / number / flags included?  (a change of the payload block's flags says so)
+    probe = [e for e in field_edits(orig) if e[0] == 'payload-flags']
+    if not (probe and classify(orig, probe[0][1])[0] == 'must-fail'):
+        target_nums = set()
 
     def judge(alt_bytes, what, keymode):
         (verdict, alt) = classify(orig, alt_bytes) if alt_bytes != data else ('must-verify', orig)
@@ -589,10 +594,16 @@ def run_source(params, known):
         elif verdict == 'undecodable':
             # one bit of a covered primary block turned it into something that is no RFC 9171 bundle (an endpoint ID the
             # scheme does not allow, say): whatever the receiver makes of it, it is not the primary block that was bound in
-            if delivered and primary_covered and keymode == right and str(what).startswith('bit ') \
-                    and orig['primary']['span'][0] * 8 <= int(str(what)[4:]) < orig['primary']['span'][1] * 8 and same_layout(data, alt_bytes):
-                viol('altered-bundle-verified', dict(primary_block='no longer RFC 9171'),
-                     'alteration %r of the covered primary block, yet the bundle was delivered' % (what,), alt_bytes, what)
+            if delivered and keymode == right and str(what).startswith('bit ') and same_layout(data, alt_bytes):
+                bitpos = int(str(what)[4:])
+                spans = [('primary block', orig['primary']['span'])] if primary_covered else []
+                # (the same for the blocks the integrity block names as targets: a data item retyped from byte string to
+                # text string, say, is a change of the target although an obliging decoder reads the same octets out of it)
+                spans += [('target block %d' % b['num'], b['span']) for b in orig['blocks'] if b['num'] in target_nums]
+                for (which, (s0, s1)) in spans:
+                    if s0 * 8 <= bitpos < s1 * 8:
+                        viol('altered-bundle-verified', dict(primary_block='no longer RFC 9171') if which == 'primary block' else dict(target_block='no longer RFC 9171'),
+                             'alteration %r of the covered %s, yet the bundle was delivered' % (what, which), alt_bytes, what)
         elif verdict == 'must-fail':
             if delivered:
                 viol('altered-bundle-verified', dict(), 'alteration %r changes what the integrity block covers, yet the bundle was delivered' % (what,), alt_bytes, what)
